@@ -1,0 +1,181 @@
+//! Facade for properties C15 / C16: drives the real `ShutdownCoordinator` methods and the real
+//! orchestration functions `initiate_core_shutdown` / `check_and_advance_linger`
+//! (socket/core/shutdown.rs) on a `SocketCore` whose command loop is NOT running, with scripted
+//! socket-to-session pipes; wraps `ActorDropGuard`; exposes read-only counters of a `Context`.
+use crate::context::Context;
+use crate::error::ZmqError;
+use crate::message::{FrameBatch, Msg};
+use crate::runtime::{mailbox, ActorDropGuard, ActorType, MailboxReceiver};
+use crate::socket::core::state::{CoreState, ShutdownCoordinator, ShutdownPhase};
+use crate::socket::core::{shutdown, SocketCore};
+use crate::socket::options::SocketOptions;
+use crate::socket::push_socket::PushSocket;
+use crate::socket::{ISocket, SocketType};
+
+use fibre::mpsc::{bounded_async, BoundedAsyncReceiver};
+use std::sync::atomic::AtomicBool;
+use std::sync::Arc;
+use std::time::{Duration, Instant};
+use tokio::sync::{Mutex as TokioMutex, RwLock as TokioRwLock};
+
+fn phase_code(p: ShutdownPhase) -> u8 {
+  match p {
+    ShutdownPhase::Running => 0,
+    ShutdownPhase::StoppingChildren => 1,
+    ShutdownPhase::Lingering => 2,
+    ShutdownPhase::CleaningPipes => 3,
+    ShutdownPhase::Finished => 4,
+  }
+}
+fn phase_of(c: u8) -> ShutdownPhase {
+  match c {
+    0 => ShutdownPhase::Running,
+    1 => ShutdownPhase::StoppingChildren,
+    2 => ShutdownPhase::Lingering,
+    3 => ShutdownPhase::CleaningPipes,
+    _ => ShutdownPhase::Finished,
+  }
+}
+
+/// LINGER as the option parser stores it: -1 => None, n >= 0 => Some(n ms)
+fn linger_of(ms: i64) -> Option<Duration> {
+  if ms < 0 {
+    None
+  } else {
+    Some(Duration::from_millis(ms as u64))
+  }
+}
+
+/// A `SocketCore` (PUSH) without a running command loop plus scripted pipes.
+pub struct VShutdown {
+  core: Arc<SocketCore>,
+  logic: Arc<dyn ISocket>,
+  pipes: Vec<Option<BoundedAsyncReceiver<FrameBatch>>>,
+  _cmd_rx: MailboxReceiver,
+}
+
+impl VShutdown {
+  pub fn new(ctx: &Context, linger_ms: i64, n_pipes: usize) -> Self {
+    let handle = ctx.inner().next_handle();
+    let (cmd_tx, cmd_rx) = mailbox(8);
+    let mut options = SocketOptions::default();
+    options.linger = linger_of(linger_ms);
+    let mut state = CoreState::new(handle, SocketType::Push, options);
+    let mut pipes = Vec::new();
+    for i in 0..n_pipes {
+      let (tx, rx) = bounded_async::<FrameBatch>(4);
+      state.pipes_tx.insert(1000 + i, tx);
+      pipes.push(Some(rx));
+    }
+    let core = Arc::new(SocketCore {
+      handle,
+      context: ctx.clone(),
+      command_sender: cmd_tx,
+      core_state: parking_lot::RwLock::new(state),
+      socket_logic: TokioRwLock::new(None),
+      shutdown_coordinator: TokioMutex::new(ShutdownCoordinator::default()),
+      is_running_flag: AtomicBool::new(true),
+    });
+    let logic: Arc<dyn ISocket> = Arc::new(PushSocket::new(core.clone()));
+    Self { core, logic, pipes, _cmd_rx: cmd_rx }
+  }
+
+  /// make pipe `i` non-empty (one queued batch) or drain it
+  pub fn set_pipe(&mut self, i: usize, nonempty: bool) {
+    let tx = self.core.core_state.read().pipes_tx.get(&(1000 + i)).cloned();
+    if let (Some(tx), Some(Some(rx))) = (tx, self.pipes.get(i)) {
+      if nonempty {
+        if tx.is_empty() {
+          let mut fb = FrameBatch::new();
+          fb.push(Msg::from_static(b"x"));
+          let _ = tx.try_send(fb);
+        }
+      } else {
+        while rx.try_recv().is_ok() {}
+      }
+    }
+  }
+  /// what `cleanup_stopped_child_resources` does to the pipe of a stopped session
+  pub fn remove_pipe(&mut self, i: usize) {
+    self.core.core_state.write().remove_pipe_state(1000 + i, 2000 + i);
+    if let Some(p) = self.pipes.get_mut(i) {
+      *p = None;
+    }
+  }
+  pub fn set_linger(&self, linger_ms: i64) {
+    let mut st = self.core.core_state.write();
+    let mut o = (*st.options).clone();
+    o.linger = linger_of(linger_ms);
+    st.options = Arc::new(o);
+  }
+  /// the real `initiate_core_shutdown`
+  pub async fn initiate(&self) {
+    shutdown::initiate_core_shutdown(self.core.clone(), &self.logic, false).await;
+  }
+  /// the real `check_and_advance_linger` (what the 100 ms maintenance tick calls while Lingering)
+  pub async fn tick(&self) -> bool {
+    shutdown::check_and_advance_linger(self.core.clone(), &self.logic).await.is_ok()
+  }
+  pub async fn force_phase(&self, p: u8) {
+    self.core.shutdown_coordinator.lock().await.state = phase_of(p);
+  }
+  pub async fn clear_deadline(&self) {
+    self.core.shutdown_coordinator.lock().await.linger_deadline = None;
+  }
+  /// `ShutdownCoordinator::start_linger_if_needed(options.linger)`
+  pub async fn start_linger(&self) {
+    let l = self.core.core_state.read().options.linger;
+    self.core.shutdown_coordinator.lock().await.start_linger_if_needed(l, self.core.handle);
+  }
+  /// `ShutdownCoordinator::is_linger_expired_or_queues_empty`
+  pub async fn check(&self) -> bool {
+    let c = self.core.shutdown_coordinator.lock().await;
+    let st = self.core.core_state.read();
+    c.is_linger_expired_or_queues_empty(&st, self.core.handle)
+  }
+  /// `advance_to_cleaning_phase`
+  pub async fn advance(&self) {
+    let mut c = self.core.shutdown_coordinator.lock().await;
+    let mut st = self.core.core_state.write();
+    shutdown::advance_to_cleaning_phase(&mut c, self.core.handle, &mut st);
+  }
+  pub async fn phase(&self) -> u8 {
+    phase_code(self.core.shutdown_coordinator.lock().await.state)
+  }
+  pub async fn deadline(&self) -> Option<Instant> {
+    self.core.shutdown_coordinator.lock().await.linger_deadline
+  }
+  pub fn is_running(&self) -> bool {
+    self.core.is_running()
+  }
+  pub fn pipes_left(&self) -> usize {
+    self.core.core_state.read().pipes_tx.len()
+  }
+}
+
+/// The real `ActorDropGuard` (runtime/actor_drop_guard.rs).
+pub struct VGuard(ActorDropGuard);
+impl VGuard {
+  pub fn new(ctx: &Context, id: usize) -> Self {
+    Self(ActorDropGuard::new(ctx.clone(), id, ActorType::Session, None, None))
+  }
+  pub fn waive(&mut self) {
+    self.0.waive()
+  }
+  pub fn set_error(&mut self) {
+    self.0.set_error(ZmqError::Internal("verif".into()))
+  }
+}
+
+/// number of socket command mailboxes registered with the context
+pub fn registered_sockets(ctx: &Context) -> usize {
+  ctx.inner().sockets.read().len()
+}
+/// number of inproc names registered with the context
+pub fn inproc_names(ctx: &Context) -> usize {
+  ctx.inner().inproc_registry.read().len()
+}
+/// receivers currently subscribed to the context's event bus (one per live socket core / session / listener ...)
+pub fn event_bus_subscribers(ctx: &Context) -> usize {
+  ctx.event_bus().subscriber_count()
+}
